@@ -564,6 +564,18 @@ class Check(object):
 
     def finish(self, level="proof"):
         wall = time.time() - self.t0
+        # a table the translator could not regenerate from the current source: the theorems stated
+        # over it are no longer checked against the code (the run used the baseline table)
+        try:
+            from tools import gen_tables
+            for name, why in gen_tables.FAILURES:
+                self.unproved("table %s could not be regenerated from the current source (%s): the theorems "
+                              "stated over it are not re-checked against this code; the correspondence run "
+                              "used the baseline table" % (name, why), {"table": name, "reason": why})
+            if gen_tables.FAILURES:
+                self.extra["tables_not_regenerated"] = [list(x) for x in gen_tables.FAILURES]
+        except ImportError:
+            pass
         # a known finding must be re-observed to be printed
         for key, what in sorted(self.known_seen.items()):
             print("KNOWN-FINDING: property=%s %s [%s]" % (self.pid, what, key))
